@@ -15,7 +15,7 @@ def run(ctx):
               label="operational layering model: conservation, capacity, single-layer rule on every label sequence of the lattice x options")
     ctx.model("MCDistributor", "NegDistributor_noescape.cfg", workers=4, expect_violation="CapacityNoEscape",
               label="negative self-test: without the 'at most two labels' escape clause the capacity bound is false")
-    recs, meta, errors = lc.gather(ctx, ["random", "dense", "bounds", "centi", "sibling", "relayout", "budget"])
+    recs, meta, errors = lc.gather(ctx, ["random", "dense", "bounds", "centi", "sibling", "far", "relayout", "budget"])
     lc.report_errors(ctx, errors, "C04_")
     lc.check(ctx, "LayoutC04.cfg", recs, meta, "C04_")
     # conformance of the operational model with the observed layerings: drift is reported, never a verdict
